@@ -302,7 +302,9 @@ def path_condition(cfg: CFG, region_entry: int, target: int, region: set[int], f
             if c == FALSE:
                 continue
             pn = cfg.node(p)
-            if pn.kind == 'test' and lab in ('true', 'false'):
+            if pn.kind == 'test' and lab in ('true', 'false') and p != region_entry:
+                # (the region entry's own test - a while condition - is not part of the condition
+                # *within* one iteration)
                 t = fb.build(pn.ast)
                 c = f_and(c, t if lab == 'true' else f_not(t))
             alts.append(c)
